@@ -82,7 +82,8 @@ pub fn run(seed: u64, count: usize, out: &mut Out, tmp: &str) {
     for e in 0..5usize {
         for lv in 0..3usize {
             let r = snap::error_level(e).fails(snap::strictness(lv));
-            out.case("C07", call("fails", vec![z(e as i128), z(lv as i128)]), b(r), "prop:table", true);
+            out.case("C07", call("failsdoc", vec![z(e as i128), z(lv as i128)]), b(r), "prop:table", true);
+            out.case("C07", call("fails", vec![z(e as i128), z(lv as i128)]), b(r), "corr:translator-T1", true);
             out.count("table-pair");
         }
     }
